@@ -3,7 +3,7 @@ import Eru.Lock.ProofsEtcd
 import Eru.Lock.Ctx
 /-
 C19 — a holder is told promptly when it loses its lock.
-etcd: proved (`etcd_loss_cancels`, `etcd_loss_bound`, `etcd_coexist_bound`).
+etcd: proved (`etcd_loss_cancels`, `etcd_loss_bound_assuming_urgency`, `pending_loss_watch_enabled`, `etcd_coexist_bound`).
 Redis: the full statement `PropC19_redis` is false on the current code (the returned context is
 `context.TODO()`): `redis_loss_counterexample`, `redis_two_holders_live_ctx`; what holds:
 `redis_loss_partial` (under WithinLease the situation never arises) and C18.mutex_redis_live.
@@ -24,11 +24,37 @@ theorem etcd_loss_cancels (p : Etcd.Params) (s : Etcd.State) (h : Etcd.Reach p s
   exact Etcd.Step.watch _ i (by simp [Etcd.loseLease, Etcd.upd]) (by simpa [Etcd.loseLease] using hc)
     (by simpa [Etcd.loseLease] using hlk)
 
-/-- **etcd_loss_bound.**  A client that still believes it holds the lock (`locked`) with a live
-    context after its lease was lost at time `t` exists only until `t + keepalive`. -/
-theorem etcd_loss_bound (p : Etcd.Params) (s : Etcd.State) (h : Etcd.Reach p s) (i t : Nat)
+/-- **etcd_loss_bound_assuming_urgency.**  A client that still believes it holds the lock (`locked`)
+    with a live context after its lease was lost at time `t` exists only until `t + keepalive`.
+    This is the environment assumption itself seen as an invariant: `Step.tick` is disabled when it
+    would exceed the bound (session.Done() fires within one keepalive interval and the watcher
+    goroutine is scheduled).  That time cannot stop because of it is `pending_loss_watch_enabled`. -/
+theorem etcd_loss_bound_assuming_urgency (p : Etcd.Params) (s : Etcd.State) (h : Etcd.Reach p s) (i t : Nat)
     (hp : Etcd.pendingLoss s i t) : s.wall ≤ t + p.keepalive :=
   (Etcd.inv_reach h).bound i t hp
+
+/-- **pending_loss_watch_enabled.**  In every reachable state, whenever the urgency guard could block
+    the clock (a pending loss exists), the watcher step of that client is enabled — and it removes
+    the pending loss.  So the guard never stops time: the model has no timelock. -/
+theorem pending_loss_watch_enabled (p : Etcd.Params) (s : Etcd.State) (h : Etcd.Reach p s) (i t : Nat)
+    (hp : Etcd.pendingLoss s i t) :
+    Etcd.Step p s (Etcd.watch s i) ∧ ∀ t', ¬ Etcd.pendingLoss (Etcd.watch s i) i t' := by
+  obtain ⟨hc, hl, ht⟩ := hp
+  have hla : s.leaseAlive i = false := by
+    cases hl' : s.leaseAlive i with
+    | false => rfl
+    | true => have := (Etcd.inv_reach h).l3 i hl'; rw [this] at ht; cases ht
+  refine ⟨Etcd.Step.watch s i hla hc hl, ?_⟩
+  intro t' hp'
+  have := hp'.1
+  simp [Etcd.watch, Etcd.upd] at this
+
+/-- **no false alarm** (oracle tag `C19:cancelled-while-holding`): a lock context is cancelled with
+    `ErrLockSessionDone` only after the holder's lease was really lost — never while it still owns
+    the lock, and never by a normal `Unlock` (which clears `locked` first). -/
+theorem etcd_cancel_only_after_loss (p : Etcd.Params) (s : Etcd.State) (h : Etcd.Reach p s) (i : Nat)
+    (hc : s.ctx i = .cancelled) : s.leaseAlive i = false :=
+  Etcd.cancelled_implies_lost h i hc
 
 /-- **etcd_coexist_bound.**  If two clients are both inside their critical sections, one of them
     has lost its lease, and that one's context is already cancelled or will be within one keepalive
